@@ -142,8 +142,6 @@ func mkWorld(name string, kinds []kind, node, item, card, tag, pic interface{}) 
 	w.values = []interface{}{node, item, card, tag}
 	w.joinTable = strings.ToLower(name) + "_node_tags"
 	w.joinCols = append(suffixed("node_", n), suffixed("tag_t", n)...)
-	_, cardPtr := reflect.TypeOf(node).FieldByName("Card")
-	_ = cardPtr
 	w.node.rels = []*rel{
 		{name: "Boss", kind: belongsTo, owner: w.node, target: w.node, ownerCols: boss, targetCols: key, single: true},
 		{name: "Subs", kind: hasMany, owner: w.node, target: w.node, ownerCols: key, targetCols: boss},
@@ -191,14 +189,13 @@ func initEnv(c *core.Ctx) {
 		mkWorld("I1", []kind{kInt}, I1Node{}, I1Item{}, I1Card{}, I1Tag{}, I1Pic{}),
 	}
 	for _, w := range worlds {
-		for i, m := range w.models {
+		for _, m := range w.models {
 			p := reflect.New(m.typ).Interface()
 			must(h.DB.AutoMigrate(p))
 			// table names are plain naming (not the mechanism under test): ask gorm
 			stmt := &gorm.Statement{DB: h.DB}
 			must(stmt.Parse(p))
 			m.table = stmt.Schema.Table
-			_ = i
 		}
 		// smoke: every column the reference model knows must exist (fails loudly otherwise)
 		for _, m := range w.models {
